@@ -13,12 +13,12 @@ import (
 
 func init() {
 	register(&Property{
-		ID:        "C12",
-		Technique: "static analysis: ORDER rules over the byte-buffer key encoders (a variable-length segment is copied only after its own length prefix), shape and constant checks on the stop-key constructors, argument agreement of range-bound pairs, exhaustiveness of complementary deletion guards by truth table, expression shape of the integer codec, case-set agreement between the tuple codec's encoder and decoder",
+		ID:          "C12",
+		Technique:   "static analysis: ORDER rules over the byte-buffer key encoders (a variable-length segment is copied only after its own length prefix), shape and constant checks on the stop-key constructors, argument agreement of range-bound pairs, exhaustiveness of complementary deletion guards by truth table, expression shape of the integer codec, case-set agreement between the tuple codec's encoder and decoder",
 		Explanation: "Decides structural conditions of key isolation: (K1) in every raw key encoder of package rockredis that fills a buffer through a cursor, each variable-length segment that is not the trailing one is preceded by a 2-byte length field of that same segment (the table of non-KV types, the key of collection sub-keys, zset/list/bitmap keys); (K2) every stop key is 'start key with the last byte + 1' applied to a key whose last byte is the constant separator (the start encoder is called with an empty trailing segment), the separators are constants below 0xff and stop separator = start separator + 1; range deletions use both ends of one collection (shared with C09-N5); (K4) whole-table ranges are built from the same (type, table) on both ends; (K5) the order-preserving integer transform is x XOR signbit on both directions and the tuple codec decodes the flags it encodes; (K6) a collection clear deletes its elements on every size: the per-element and the range deletion guards are complementary. (K7) table isolation in key scans: the node-level SCAN/ADVSCAN commands cut a page at the first key whose extracted table differs (bytes.Equal) from the cursor's table and no table test in node/scan.go is a prefix comparison (same rule as C13-Q2).",
-		NotDecided: "EncodeMemCmpKey/Decode round-trip and order preservation for bytes and floats (bytewise numeric reasoning), decoder bounds checks against corrupted stored keys, 2-byte length overflow (CheckKey limits), that table names contain no ':' for the KV type (relied upon; noted).",
+		NotDecided:  "EncodeMemCmpKey/Decode round-trip and order preservation for bytes and floats (bytewise numeric reasoning), decoder bounds checks against corrupted stored keys, 2-byte length overflow (CheckKey limits), that table names contain no ':' for the KV type (relied upon; noted).",
 		Assumptions: []string{"the encoders are recognised by their idiom: buf[pos] = c, pos += n, binary.BigEndian.PutUint16(buf[pos:], uint16(len(x))), copy(buf[pos:], x)"},
-		Run: runC12,
+		Run:         runC12,
 	})
 }
 
@@ -31,6 +31,7 @@ func runC12(c *Ctx) {
 	r.Clause("C12-K6", "clear deletes the elements for every size")
 	r.Clause("C12-K7", "a table scan never returns keys of another table: pages are cut by exact table equality")
 	c13TableCut(c, "C12-K7")
+	c12PrefixWithSeparator(c)
 	nEnc := 0
 	for _, fn := range c.P.Funcs() {
 		if load.ShortPkg(fn.Pkg.PkgPath) != "rockredis" || fn.Decl.Body == nil {
@@ -164,6 +165,48 @@ func runC12(c *Ctx) {
 	if u := c.unit("C12-K5", "rockredis.encodeIntToCmpUint"); u != nil {
 		r.ReturnTerm("C12-K5", u, 0, "(uint64(p0) ^ rockredis.signMask)")
 	}
+	// float codec: non-negative values (which include -0.0, whose sign bit is already set) get the sign bit SET, negative
+	// values are inverted; the decoder clears / inverts under the matching test
+	if u := c.unit("C12-K5", "rockredis.encodeFloatToCmpUint64"); u != nil {
+		n := 0
+		for _, s := range u.Match(an.LocalStore("u")) {
+			if s.RHS == nil {
+				continue
+			}
+			pc, t, tok := u.SitePC(s), u.C.Term(s.RHS), s.Tok.String()
+			switch {
+			case flow.Implies(pc, c.W.Parse("!(p0 < 0)")).Holds && !flow.Implies(pc, c.W.Parse("p0 < 0")).Holds && t != "math.Float64bits(p0)":
+				n++
+				ok := tok == "|=" && t == "rockredis.signMask" || tok == "=" && (t == "(rockredis.signMask | u)" || t == "(u | rockredis.signMask)")
+				r.Check("C12-K5", u.Name+": for f >= 0 the sign bit is set (not flipped: -0.0 is >= 0 and has it set already)", u.Pos(s.Pos), ok, "u "+tok+" "+t)
+			case flow.Implies(pc, c.W.Parse("p0 < 0")).Holds:
+				n++
+				r.Check("C12-K5", u.Name+": for f < 0 all bits are inverted", u.Pos(s.Pos), tok == "=" && t == "^u", "u "+tok+" "+t)
+			}
+		}
+		r.Min("C12-K5", n, 2, "float encoder branches")
+	}
+	if u := c.unit("C12-K5", "rockredis.decodeCmpUintToFloat"); u != nil {
+		n := 0
+		for _, s := range u.Match(an.LocalStore("u")) {
+			if s.RHS == nil {
+				continue
+			}
+			pc, t, tok := u.SitePC(s), u.C.Term(s.RHS), s.Tok.String()
+			set := c.W.Parse("0 < (p0 & rockredis.signMask)")
+			switch {
+			case flow.Implies(pc, set).Holds:
+				n++
+				// flipping a bit that is known to be set also clears it
+				ok := tok == "&=" && (t == "9223372036854775807" || t == "^rockredis.signMask") || (tok == "&^=" || tok == "^=") && t == "rockredis.signMask"
+				r.Check("C12-K5", u.Name+": a set sign bit is cleared", u.Pos(s.Pos), ok, "u "+tok+" "+t)
+			case flow.Implies(pc, flow.Not(set)).Holds:
+				n++
+				r.Check("C12-K5", u.Name+": otherwise all bits are inverted", u.Pos(s.Pos), tok == "=" && t == "^p0", "u "+tok+" "+t)
+			}
+		}
+		r.Min("C12-K5", n, 2, "float decoder branches")
+	}
 	if u := c.unit("C12-K5", "rockredis.decodeCmpUintToInt"); u != nil {
 		r.ReturnTerm("C12-K5", u, 0, "int64((p0 ^ rockredis.signMask))")
 	}
@@ -171,7 +214,9 @@ func runC12(c *Ctx) {
 
 	// K6
 	if u := c.unit("C12-K6", "rockredis.(*RockDB).hDeleteAll"); u != nil {
-		per := u.Match(an.Call("engine.WriteBatch.Delete").Where("per element", func(u *an.Unit, s *an.Site) bool { return u.ArgTerm(s, 0) == "rawk" || strings.HasPrefix(u.ArgTerm(s, 0), "it.") }))
+		per := u.Match(an.Call("engine.WriteBatch.Delete").Where("per element", func(u *an.Unit, s *an.Site) bool {
+			return u.ArgTerm(s, 0) == "rawk" || strings.HasPrefix(u.ArgTerm(s, 0), "it.")
+		}))
 		rng := u.Match(an.Call("engine.WriteBatch.DeleteRange"))
 		if len(per) != 1 || len(rng) != 1 {
 			r.Unknown("C12-K6", u.Name+": per-element and range deletion sites", "", fmt.Sprintf("found %d and %d", len(per), len(rng)))
@@ -221,4 +266,75 @@ func projectOn(f *flow.F, term string) *flow.F {
 		return f
 	}
 	return rec(f, true)
+}
+
+// c12PrefixWithSeparator: a prefix test that keeps an iteration inside one table must compare against "table:" and not
+// against the bare table name ("user" is a prefix of "user_ext:..."). For every bytes.HasPrefix in package rockredis whose
+// prefix operand is a local built from a string conversion, some definition on the local's alias chain appends the
+// table separator.
+func c12PrefixWithSeparator(c *Ctx) {
+	r := c.R
+	n := 0
+	for _, cs := range c.W.AllSites(an.Call("bytes.HasPrefix"), "HasPrefix", []string{"rockredis"}) {
+		u := cs.U
+		if strings.HasSuffix(c.P.Fset.Position(cs.S.Pos).Filename, "_test.go") || len(cs.S.Call.Args) != 2 {
+			continue
+		}
+		id, ok := ast.Unparen(cs.S.Call.Args[1]).(*ast.Ident)
+		if !ok {
+			continue
+		}
+		// all definitions of the local and of the locals it is copied from, in this function and the enclosing ones
+		seen := map[types.Object]bool{}
+		var fromString, withSep bool
+		var walk func(o types.Object, depth int)
+		units := []*an.Unit{u}
+		if top, err := c.W.Unit(u.Fn.Name); err == nil {
+			units = append(units, top)
+			units = append(units, top.Lits()...)
+		}
+		walk = func(o types.Object, depth int) {
+			if o == nil || seen[o] || depth > 4 {
+				return
+			}
+			seen[o] = true
+			for _, uu := range units {
+				for _, d := range uu.Sites {
+					if d.Kind != flow.SStore || d.Local != o || d.RHS == nil {
+						continue
+					}
+					rhs := ast.Unparen(d.RHS)
+					if call, isCall := rhs.(*ast.CallExpr); isCall {
+						if tv, ok := uu.Info().Types[call.Fun]; ok && tv.IsType() && len(call.Args) == 1 {
+							if bt, ok := uu.Info().TypeOf(call.Args[0]).Underlying().(*types.Basic); ok && bt.Info()&types.IsString != 0 {
+								fromString = true
+							}
+						}
+						if fid, ok := call.Fun.(*ast.Ident); ok && fid.Name == "append" {
+							for _, a := range call.Args[1:] {
+								t := uu.C.Term(a)
+								if strings.Contains(t, "NamespaceTableSeperator") || strings.Contains(t, "tableStartSep") || t == "58" || t == "':'" {
+									withSep = true
+								}
+							}
+							if aid, ok := ast.Unparen(call.Args[0]).(*ast.Ident); ok {
+								walk(uu.Info().ObjectOf(aid), depth+1)
+							}
+						}
+					}
+					if aid, ok := rhs.(*ast.Ident); ok {
+						walk(uu.Info().ObjectOf(aid), depth+1)
+					}
+				}
+			}
+		}
+		walk(u.Info().ObjectOf(id), 0)
+		if !fromString {
+			continue // not built from a name: not judged here
+		}
+		n++
+		r.Check("C12-K7", fmt.Sprintf("%s: the prefix %s that bounds the iteration ends with the table separator", u.Name, id.Name), u.Pos(cs.S.Pos), withSep,
+			"the prefix is a bare name: keys of every table whose name merely starts with it pass the test")
+	}
+	r.Min("C12-K7", n, 1, "prefix tests against a name-derived prefix in package rockredis")
 }
